@@ -344,7 +344,7 @@ fn dump(tcx: TyCtxt<'_>) {
                     }
                     calls.push('}');
                 }
-                TerminatorKind::Assert { msg, .. } => {
+                TerminatorKind::Assert { msg, cond, .. } => {
                     let (pf, pl, _pc, expn) = loc(tcx, term.source_info.span);
                     if !pfirst {
                         panics.push(',');
@@ -363,6 +363,27 @@ fn dump(tcx: TyCtxt<'_>) {
                             esc(&operand_prov(tcx, body, data, l)),
                             esc(&operand_prov(tcx, body, data, r))
                         );
+                    }
+                    if matches!(&**msg, mir::AssertKind::DivisionByZero(..) | mir::AssertKind::RemainderByZero(..)) {
+                        // the divisor is the operand compared with zero to compute the assert condition
+                        let mut divisor = "?".to_string();
+                        let mut dty = "?".to_string();
+                        if let Operand::Copy(cp) | Operand::Move(cp) = cond {
+                            for st in data.statements.iter().rev() {
+                                if let StatementKind::Assign(b) = &st.kind {
+                                    let (lhs, rv) = &**b;
+                                    if lhs.local == cp.local && lhs.projection.is_empty() {
+                                        if let Rvalue::BinaryOp(mir::BinOp::Eq, ops) = rv {
+                                            let (a, _z) = &**ops;
+                                            divisor = operand_prov(tcx, body, data, a);
+                                            dty = format!("{}", a.ty(&body.local_decls, tcx));
+                                        }
+                                        break;
+                                    }
+                                }
+                            }
+                        }
+                        let _ = write!(panics, ",\"ty\":{},\"r\":{}", esc(&dty), esc(&divisor));
                     }
                     panics.push('}');
                 }
